@@ -140,8 +140,15 @@ Definition recv_finish (s : st) (t : tid) (mx : nat) : st * res :=
 (* `finally: self._transport.pause_reading()` of receive() on the CancelledError path (HEAD only) *)
 Definition cancel_wait (pinned : bool) (s : st) : st := if pinned then s else set_reading s false.
 
+(* send(), after `await self._protocol.write_event.wait()`: HEAD (commit d2d2221) re-checks _closed and
+   protocol.exception, because connection_lost() also sets the write event; the pinned tree returned normally *)
+Definition send_wait_result (pinned : bool) (s : st) : res :=
+  if pinned then RDone else
+  if closed s then RClosed else match exc s with Some _ => RBroken | None => RDone end.
+
 (* pinned = true: the behaviour of the pinned tree before commit ab750b3 (a receive() cancelled while
-   waiting skipped pause_reading()); pinned = false: HEAD (try/finally around read_event.wait()). *)
+   waiting skipped pause_reading()) and before d2d2221 (a send() released by connection_lost() returned normally);
+   pinned = false: HEAD. *)
 Definition stepv (pinned : bool) (s : st) (o : op) : st * res :=
   match o with
   | Receive t mx =>
@@ -204,7 +211,7 @@ Definition stepv (pinned : bool) (s : st) (o : op) : st * res :=
           match f with
           | FPending => (s, RRejected)
           | FCancelled => (leave_send s t, RCancelled)
-          | FSet => if mustc s t then (leave_send s t, RCancelled) else (leave_send s t, RDone)
+          | FSet => if mustc s t then (leave_send s t, RCancelled) else (leave_send s t, send_wait_result pinned s)
           end
       | CloseYield =>
           if mustc s t then (set_mc (set_phase s t Idle) t false, RCancelled)
